@@ -9,6 +9,7 @@ from ..engine import finite, flow
 from ..engine.mutate import Mutant, Variant, in_function, replace_once
 from ..engine.runner import Rule
 from ..engine.source import AnalysisError
+from ..engine.sqlfront import all_where_clauses, split_conjuncts
 from .common import callee_name, calls_in, kwarg
 
 EXPLANATION = (
@@ -168,13 +169,60 @@ def rule_event_folding(ctx):
     ctx.check("await self.record_change(change, path, during_build=True)" in src, ro.fq, "changes queued during the build are filtered with during_build=True", "build-time events are treated like watch-time events", "during_build=True")
 
 
+def rule_watched_where_restart_looks(ctx):
+    """R-C14-4: what a restart would notice, the watcher is in a position to notice: the directories of every file a
+    restart rescans are watched when a director resumes an existing database, and a directory that does not exist
+    yet is remembered at every missing level."""
+    FS = ctx.prog.enum("FileState")
+    # states rescanned at restart (rescan_files): all but the bound exclusions
+    excl = set()
+    for st_ in ctx.sql.census.sites_in("startup.rescan_files"):
+        for p in st_.params:
+            if isinstance(p, tuple):
+                excl |= {x for x in p if isinstance(x, int)}
+    rescanned = {m for m in FS if m.value not in excl}
+    if not excl:
+        raise AnalysisError("startup.rescan_files: excluded states not found")
+    wk = ctx.prog.func("startup.watch_known_dirs")
+    sel = [st_ for st_ in ctx.sql.stmts_in(wk.fq) if st_.kind == "SELECT" and "file" in st_.text]
+    if not sel:
+        raise AnalysisError("startup.watch_known_dirs: selection not found")
+    watched = None
+    for st_ in sel:
+        for wh in all_where_clauses(st_.text):
+            preds = [c for c in split_conjuncts(wh) if re.search(r"\bstate\b", c)]
+            if not preds:
+                watched = set(FS) if watched is None else watched
+                continue
+            tt = ctx.cat.truth_table(" AND ".join(f"({c})" for c in preds), {("file.state", "file . state", "state"): [m.value for m in FS]})
+            got = {FS(v) for (v,), ok in tt.items() if ok}
+            watched = got if watched is None else (watched & got)
+    missing = sorted(m.name for m in rescanned - (watched or set()))
+    ctx.check(not missing, wk.fq, "on resume, the directory of every file that a restart rescans is watched",
+              f"directories of files in state {missing} are not handed to the watcher when a director resumes a database: an up-to-date step is skipped, so create_dirs never watches its output directory either, and removing or editing such a file is seen by a restart (rescan_files) but not by a watch-mode rebuild", f"watched states ⊇ rescanned states ({sorted(m.name for m in rescanned)})", where=ctx.where_of(wk))
+    dl = ctx.prog.func("watcher.AsyncInotifyWrapper.dir_loop")
+    ok = False
+    for w in ast.walk(dl.node):
+        if isinstance(w, ast.While):
+            climbs = any(isinstance(a, ast.Assign) and ast.unparse(a) == "path = path.parent" for a in w.body)
+            records = any(isinstance(x, ast.Expr) and isinstance(x.value, ast.Call) and ast.unparse(x.value.func) == "self.watches.setdefault" and x.value.args and ast.unparse(x.value.args[0]) == "path" for x in w.body)
+            if climbs and records and "is_dir" in ast.unparse(w.test):
+                ok = True
+    ctx.check(ok, dl.fq, "every missing ancestor of a requested directory is recorded as a pending watch", "only the requested directory is remembered: when two or more levels are missing, the creation of the upper one is not recognised as the appearance of a pending watch and nothing below it is ever watched", "setdefault inside the climbing loop", where=ctx.where_of(dl))
+    cl = ctx.prog.func("watcher.AsyncInotifyWrapper.change_loop")
+    ctx.check("self.watches" in ast.unparse(cl.node), cl.fq, "the change loop consults the pending watches", "pending watches are never installed", "consulted")
+
+
 RULES = [
     Rule("R-C14-1", "same reactions on both sides", rule_same_reactions, min_instances=10),
     Rule("R-C14-2", "same relevance filter", rule_same_filter, min_instances=6),
     Rule("R-C14-3", "event folding keeps the sets disjoint", rule_event_folding, min_instances=15),
+    Rule("R-C14-4", "the watcher looks where a restart looks", rule_watched_where_restart_looks, min_instances=3),
 ]
 
 MUTANTS = [
+    Mutant("resume-watches-static-only", "startup.py", in_function("watch_known_dirs", replace_once('f"file.state != {FileState.VOLATILE.value}"', 'f"file.state IN ({FileState.UNCONFIRMED.value}, {FileState.CONFIRMED.value}, {FileState.MISSING.value})"')), ("R-C14-4",)),
+    Mutant("pending-watch-one-level", "watcher.py", in_function("AsyncInotifyWrapper.dir_loop", replace_once("            while not (path.is_dir() or path.name == \"..\" or path in (\"\", \".\")):\n                self.watches.setdefault(path, None)\n                path = path.parent\n", "            if not path.is_dir():\n                self.watches.setdefault(path, None)\n            while not (path.is_dir() or path.name == \"..\" or path in (\"\", \".\")):\n                path = path.parent\n")), ("R-C14-4",)),
     Mutant("watch-globs-attached-only", "workflow.py", in_function("Workflow.process_nglob_changes", replace_once("self.nglob_registrations(include_detached=True)", "self.nglob_registrations()")), ("R-C14-1",)),
     Mutant("no-glob-reaction", "watcher.py", in_function("Watcher.run_once", replace_once("            self.workflow.process_nglob_changes(self.deleted, self.updated)\n", "            pass\n")), ("R-C14-1", "R-C14-3")),
     Mutant("rebuild-no-retry", "director.py", in_function("DirectorHandler.start_build_phase", lambda s: s.replace("            for step in self.workflow.steps(StepState.FAILED):\n                self.workflow.mark_step_pending(step)\n", "            pass\n") if "self.workflow.mark_step_pending(step)" in s else None), ("R-C14-1",)),
